@@ -93,7 +93,6 @@ func init() {
 	addMutants("C12",
 		mutant{"replay-repairs-incoming-only", "pkg/engine/recovery.go", "outgoing := e.DB.GetAllRelations(graphID, \"out\")\n\t\t\t\tfor relType, targets := range outgoing {", "outgoing := map[string][]string{}\n\t\t\t\tfor relType, targets := range outgoing {", "SIB-4", "VDEL-repair-directions"},
 		mutant{"cascade-skips-outgoing", "pkg/engine/ops.go", "outgoingRels := e.DB.GetAllRelations(graphID, \"out\")", "outgoingRels := e.DB.GetAllRelations(graphID, \"in\")", "SIB-4", "VDelete:cascade-directions"},
-		mutant{"cascade-not-registered", "pkg/engine/ops.go", "\te.wg.Add(1)\n\tgo func(deadNodeID string) {\n\t\tdefer e.wg.Done()\n", "\tgo func(deadNodeID string) {\n", "SIB-4", "cascade-registered-before-go"},
 	)
 }
 
@@ -105,7 +104,7 @@ func init() {
 		mutant{"early-return-keeps-read-lock", "pkg/core/core.go", "func (s *DB) getMetadataForNode(indexName string, nodeID uint32) map[string]any {\n\ts.mu.RLock()\n\tidxMu, exists := s.indexLocks[indexName]\n\tif !exists {\n\t\ts.mu.RUnlock()\n\t\treturn make(map[string]any)\n\t}", "func (s *DB) getMetadataForNode(indexName string, nodeID uint32) map[string]any {\n\ts.mu.RLock()\n\tidxMu, exists := s.indexLocks[indexName]\n\tif !exists {\n\t\treturn make(map[string]any)\n\t}", "LCK-1", "getMetadataForNode"},
 		mutant{"compaction-iterates-kv-unlocked", "pkg/engine/recovery.go", "\te.DB.GetKVStore().RLock()\n\te.DB.IterateKVUnlocked(", "\te.DB.IterateKVUnlocked(", "LCK-5", "guard:core.KVStore.mu@Engine.RewriteAOF"},
 		mutant{"blocking-event-send", "pkg/engine/events.go", "\t\tselect {\n\t\tcase ch <- e:\n\t\tdefault:\n\t\t\t// Buffer full, drop the event for this slow consumer.\n\t\t}", "\t\tch <- e", "LCK-6", "Emit:send"},
-		mutant{"reinforce-reads-before-lock", "pkg/engine/ops.go", "\t\tlock := e.getMetadataLockShard(internalID)\n\t\tlock.Lock()\n\n\t\t// 3. Fetch current metadata (under protection of node-level lock).\n\t\t// GetMetadataForNode self-locks (s.mu + idxMu): do NOT wrap it in an\n\t\t// outer e.DB.RLock() — that re-acquires s.mu.RLock reentrantly and\n\t\t// deadlocks once a writer (create/delete index, close) waits (P1-5).\n\t\tmeta := e.DB.GetMetadataForNode(indexName, internalID)\n", "\t\tmeta := e.DB.GetMetadataForNode(indexName, internalID)\n\t\tlock := e.getMetadataLockShard(internalID)\n\t\tlock.Lock()\n", "GRD-rmw", "VReinforce:read"},
+		mutant{"reinforce-reads-before-lock", "pkg/engine/ops.go", "\t\tlock := e.getMetadataLockShard(internalID)\n\t\tlock.Lock()\n\t\t// Deleted between the look-up and the lock (VDelete holds the same lock)?\n", "\t\tmeta := e.DB.GetMetadataForNode(indexName, internalID)\n\t\tlock := e.getMetadataLockShard(internalID)\n\t\tlock.Lock()\n\t\t// Deleted between the look-up and the lock (VDelete holds the same lock)?\n", "GRD-rmw", "VReinforce:read"},
 		mutant{"chunk-stats-lock-order", "pkg/storage/mmap/compactor.go", "\tac.arena.slotMu.RLock()\n\tdefer ac.arena.slotMu.RUnlock()\n\n\tac.arena.mu.RLock()\n\tdefer ac.arena.mu.RUnlock()\n\n\tstats := make([]ChunkFragmentation", "\tac.arena.mu.RLock()\n\tdefer ac.arena.mu.RUnlock()\n\n\tac.arena.slotMu.RLock()\n\tdefer ac.arena.slotMu.RUnlock()\n\n\tstats := make([]ChunkFragmentation", "LCK-3", "order:mmap.VectorArena.mu->mmap.VectorArena.slotMu"},
 		mutant{"db-lock-under-shard-lock", "pkg/core/graph.go", "\tshardSource, shardTarget := db.LockTwoShards(sourceID, targetID)\n\tdefer db.UnlockTwoShards(sourceID, targetID)\n\n\t// 1. Ensure Nodes exist", "\tshardSource, shardTarget := db.LockTwoShards(sourceID, targetID)\n\tdefer db.UnlockTwoShards(sourceID, targetID)\n\tdb.mu.RLock()\n\t_ = len(db.vectorIndexes)\n\tdb.mu.RUnlock()\n\n\t// 1. Ensure Nodes exist", "LCK-3", "core.GraphShard.mu->core.DB.mu"},
 		mutant{"text-fields-read-without-index-lock", "pkg/core/core.go", "\tidxMu.RLock()\n\tdefer idxMu.RUnlock()\n\tdefer s.mu.RUnlock()\n\n\tfields, ok := s.textIndex[indexName]", "\t_ = idxMu\n\tdefer s.mu.RUnlock()\n\n\tfields, ok := s.textIndex[indexName]", "LCK-5", "GetTextIndexMap"},
@@ -122,7 +121,7 @@ func init() {
 		mutant{"cursor-lists-by-map-presence", "pkg/core/hnsw/hnsw_index.go", "\t\tif node != nil && !node.Deleted.Load() {\n\t\t\tids = append(ids, node.Id)\n\t\t}", "\t\tif node != nil {\n\t\t\tif _, ok := h.externalToInternalID[node.Id]; ok {\n\t\t\t\tids = append(ids, node.Id)\n\t\t\t}\n\t\t}", "GRD-list", "GetIDsByCursor"},
 		mutant{"compress-drops-memory-config", "pkg/core/core.go", "\tnewIndex.SetMemoryConfig(oldHNSWIndex.GetMemoryConfig())\n", "", "SIB-2", "DB.Compress:Index.SetMemoryConfig"},
 		mutant{"small-batch-not-prevalidated", "pkg/core/hnsw/hnsw_index.go", "\t\tif err := h.checkBatchIDs(objects); err != nil {\n\t\t\treturn err\n\t\t}\n", "", "SIB-5", "validate-before-mutation"},
-		mutant{"setmetadata-reads-before-lock", "pkg/engine/ops.go", "\tlock := e.getMetadataLockShard(internalID)\n\tlock.Lock()\n\tdefer lock.Unlock()\n\n\t// 2. Legge i metadati correnti (sotto protezione del node-level lock).\n\t// GetMetadataForNode self-locks: no outer e.DB.RLock() (P1-5, vedi\n\t// VReinforce).\n\tmeta := e.DB.GetMetadataForNode(indexName, internalID)\n", "\tmeta := e.DB.GetMetadataForNode(indexName, internalID)\n\tlock := e.getMetadataLockShard(internalID)\n\tlock.Lock()\n\tdefer lock.Unlock()\n", "GRD-rmw", "VSetMetadata:read"},
+		mutant{"setmetadata-reads-before-lock", "pkg/engine/ops.go", "\tlock := e.getMetadataLockShard(internalID)\n\tlock.Lock()\n\tdefer lock.Unlock()\n\t// The node may have been deleted between the look-up above and the lock\n", "\tmeta := e.DB.GetMetadataForNode(indexName, internalID)\n\tlock := e.getMetadataLockShard(internalID)\n\tlock.Lock()\n\tdefer lock.Unlock()\n\t// The node may have been deleted between the look-up above and the lock\n", "GRD-rmw", "VSetMetadata:read"},
 	)
 }
 
@@ -150,7 +149,7 @@ func init() {
 		mutant{"namespace-from-query-decoy", "internal/server/middleware.go", "\t// B. Controllo dal Body (es. POST /vector/actions/add)\n", "\tif ns := r.URL.Query().Get(\"index_name\"); ns != \"\" {\n\t\treturn []string{ns}\n\t}\n\t// B. Controllo dal Body (es. POST /vector/actions/add)\n", "WEB-4", "middleware:namespace-locations"},
 		mutant{"verified-token-cache", "pkg/auth/jwt_provider.go", "func (j *JWTProvider) VerifyToken(tokenStr string) (*APIKeyPolicy, error) {\n", "var verifiedCache = map[string]*APIKeyPolicy{}\n\nfunc (j *JWTProvider) VerifyToken(tokenStr string) (*APIKeyPolicy, error) {\n\tif p, ok := verifiedCache[tokenStr]; ok {\n\t\tif _, revoked := j.kvStore.Get(\"_sys_auth::revoked::\" + p.ID); !revoked {\n\t\t\treturn p, nil\n\t\t}\n\t}\n", "WEB-auth", "VerifyToken:success-after-parse"},
 		mutant{"any-signing-method", "pkg/auth/jwt_provider.go", "\t\tif _, ok := t.Method.(*jwt.SigningMethodECDSA); !ok {\n\t\t\treturn nil, fmt.Errorf(\"auth: unexpected signing method: %v\", t.Header[\"alg\"])\n\t\t}\n", "", "WEB-auth", "VerifyToken:pins-ECDSA"},
-		mutant{"transfer-indexes-not-authorised", "internal/server/middleware.go", "\t\t\tfor _, ns := range []string{payload.IndexName, payload.SourceIndex, payload.TargetIndex} {", "\t\t\tfor _, ns := range []string{payload.IndexName} {", "WEB-4", "Server.handleTransferMemory"},
+		mutant{"transfer-indexes-not-authorised", "internal/server/middleware.go", "\t\t\tif r.URL.Path == \"/transfer/memory\" {\n\t\t\t\tnamed = append(named, payload.SourceIndex, payload.TargetIndex)\n\t\t\t}\n", "", "WEB-4", "Server.handleTransferMemory"},
 		mutant{"forbidden-but-served", "internal/server/middleware.go", "\t\t\t\t\thttp.Error(w, \"Forbidden: insufficient permissions for this namespace/action\", http.StatusForbidden)\n\t\t\t\t\treturn\n", "\t\t\t\t\thttp.Error(w, \"Forbidden: insufficient permissions for this namespace/action\", http.StatusForbidden)\n", "WEB-auth", "serve-needs-HasAccess"},
 		mutant{"auth-store-unjournaled-again", "internal/server/server.go", "auth.NewJWTProvider(journaledKV{eng})", "auth.NewJWTProvider(eng.DB.GetKVStore())", "JRN-2", "pkg/auth"},
 	)
@@ -218,8 +217,8 @@ func init() {
 		mutant{"recursion-on-same-list", "pkg/rag/splitter.go", "\t\treturn s.recursiveSplit(text, nextSeparators)", "\t\treturn s.recursiveSplit(text, separators)", "GRD-progress", "recursiveSplit:recursion#1:shorter-list"},
 		mutant{"chunker-accepts-overlap-equal-size", "pkg/core/text/chunker.go", "overlapSize >= chunkSize {", "overlapSize > chunkSize {", "GRD-progress", "FixedSizeChunker:step-positive"},
 		mutant{"overlap-loop-keeps-head", "pkg/rag/splitter.go", "\t\tnewParts = newParts[1:]\n", "\t\tnewParts = newParts[0:]\n", "GRD-progress", "removeFirstUntilOverlap:loop#1:shrinks"},
-		mutant{"first-chunk-always-taken", "pkg/rag/adaptive_retriever.go", "\t\t\tif totalTokens+chunkTokens > budget {\n", "\t\t\tif totalTokens+chunkTokens > budget && len(selected) > 0 {\n", "GRD-budget", "assembleContext:select#1:within-budget"},
-		mutant{"selected-chunk-not-counted", "pkg/rag/adaptive_retriever.go", "\t\t\tselected = append(selected, chunk.Chunk)\n\t\t\ttotalTokens += chunkTokens\n", "\t\t\tselected = append(selected, chunk.Chunk)\n", "GRD-budget", "assembleContext:select#1:counted"},
+		mutant{"first-chunk-always-taken", "pkg/rag/adaptive_retriever.go", "\t\t\tif float64(totalTokens)+chunkCost > float64(budget) {\n", "\t\t\tif float64(totalTokens)+chunkCost > float64(budget) && len(selected) > 0 {\n", "GRD-budget", "assembleContext:select#1:within-budget"},
+		mutant{"selected-chunk-not-counted", "pkg/rag/adaptive_retriever.go", "\t\t\tchunkTokens := int(chunkCost)\n\n\t\t\tselected = append(selected, chunk.Chunk)\n\t\t\ttotalTokens += chunkTokens\n", "\t\t\tselected = append(selected, chunk.Chunk)\n", "GRD-budget", "assembleContext:select#1:counted"},
 		mutant{"depth-limit-off-by-one", "pkg/rag/adaptive_retriever.go", "if current.Depth >= ar.config.GraphExpansionDepth {", "if current.Depth > ar.config.GraphExpansionDepth {", "GRD-expand", "expandGraphBFS:depth-cut"},
 		mutant{"node-cap-not-tested", "pkg/rag/adaptive_retriever.go", "for head < len(queue) && len(visited) < ar.config.MaxExpansionNodes {", "for head < len(queue) {", "GRD-expand", "expandGraphBFS:node-cap"},
 		mutant{"neighbour-not-marked-visited", "pkg/rag/adaptive_retriever.go", "\t\t\t\t// New node\n\t\t\t\tvisited[targetID] = newDepth\n", "\t\t\t\t// New node\n", "GRD-expand", "expandGraphBFS:enqueue#1:marked"},
@@ -345,7 +344,7 @@ func init() {
 // behaviour-preserving variants (Rule "silent"): realistic refactorings that keep the property; no rule may fire.
 func init() {
 	addMutants("C20",
-		mutant{"benign:budget-test-rearranged", "pkg/rag/adaptive_retriever.go", "\t\t\tif totalTokens+chunkTokens > budget {\n\t\t\t\tbreak // Budget exhausted\n\t\t\t}\n\n\t\t\tselected = append(selected, chunk.Chunk)\n\t\t\ttotalTokens += chunkTokens\n", "\t\t\tif next := totalTokens + chunkTokens; next <= budget {\n\t\t\t\tselected = append(selected, chunk.Chunk)\n\t\t\t\ttotalTokens = next\n\t\t\t} else {\n\t\t\t\tbreak // Budget exhausted\n\t\t\t}\n", "silent", ""},
+		mutant{"benign:budget-test-rearranged", "pkg/rag/adaptive_retriever.go", "\t\t\tif float64(totalTokens)+chunkCost > float64(budget) {\n\t\t\t\tbreak // Budget exhausted\n\t\t\t}\n\t\t\tchunkTokens := int(chunkCost)\n\n\t\t\tselected = append(selected, chunk.Chunk)\n\t\t\ttotalTokens += chunkTokens\n", "\t\t\tif next := float64(totalTokens) + chunkCost; next <= float64(budget) {\n\t\t\t\tselected = append(selected, chunk.Chunk)\n\t\t\t\ttotalTokens += int(chunkCost)\n\t\t\t} else {\n\t\t\t\tbreak // Budget exhausted\n\t\t\t}\n", "silent", ""},
 	)
 	addMutants("C06",
 		mutant{"benign:deleted-test-as-early-continue", "pkg/core/hnsw/hnsw_index.go", "\t\t\t\t// Add to results ONLY if not deleted\n\t\t\t\tif !neighborNode.Deleted.Load() {\n\t\t\t\t\tresults.Push(neighborCandidate)\n\n\t\t\t\t\tif results.Len() > ef {\n\t\t\t\t\t\tresults.Pop() // Remove the farthest\n\t\t\t\t\t}\n\t\t\t\t}\n", "\t\t\t\t// Add to results ONLY if not deleted\n\t\t\t\tif neighborNode.Deleted.Load() {\n\t\t\t\t\tcontinue\n\t\t\t\t}\n\t\t\t\tresults.Push(neighborCandidate)\n\t\t\t\tif results.Len() > ef {\n\t\t\t\t\tresults.Pop() // Remove the farthest\n\t\t\t\t}\n", "silent", ""},
@@ -367,7 +366,7 @@ func init() {
 
 func init() {
 	addMutants("C10",
-		mutant{"benign:reverse-soft-delete-as-early-continue", "pkg/core/graph.go", "\t\t\t\tfor i := range inList {\n\t\t\t\t\tif inList[i].SourceID == sourceID && inList[i].DeletedAt == 0 {\n\t\t\t\t\t\tinList[i].DeletedAt = timestamp\n\t\t\t\t\t\tbreak\n\t\t\t\t\t}\n\t\t\t\t}\n", "\t\t\t\tfor i := range inList {\n\t\t\t\t\trev := &inList[i]\n\t\t\t\t\tif rev.DeletedAt != 0 || sourceID != rev.SourceID {\n\t\t\t\t\t\tcontinue\n\t\t\t\t\t}\n\t\t\t\t\trev.DeletedAt = timestamp\n\t\t\t\t\tbreak\n\t\t\t\t}\n", "silent", ""},
+		mutant{"benign:reverse-soft-delete-as-early-continue", "pkg/core/graph.go", "\t\t\t\t\tif inList[i].SourceID == sourceID && inList[i].DeletedAt == 0 {\n\t\t\t\t\t\tinList[i].DeletedAt = timestamp\n\t\t\t\t\t\tbreak\n\t\t\t\t\t}\n", "\t\t\t\t\trev := &inList[i]\n\t\t\t\t\tif rev.DeletedAt != 0 || sourceID != rev.SourceID {\n\t\t\t\t\t\tcontinue\n\t\t\t\t\t}\n\t\t\t\t\trev.DeletedAt = timestamp\n\t\t\t\t\tbreak\n", "silent", ""},
 		mutant{"benign:hard-delete-split-renamed-and-inverted", "pkg/core/graph.go", "\t\t\tif hardDelete {\n\t\t\t\tnewIn := inList[:0]\n\t\t\t\tfor _, edge := range inList {\n\t\t\t\t\tif edge.SourceID != sourceID {\n\t\t\t\t\t\tnewIn = append(newIn, edge)\n\t\t\t\t\t}\n\t\t\t\t}\n\t\t\t\ttargetNode.InEdges[relationType] = newIn\n\t\t\t} else {", "\t\t\tif soft := !hardDelete; !soft {\n\t\t\t\tnewIn := inList[:0]\n\t\t\t\tfor _, edge := range inList {\n\t\t\t\t\tif edge.SourceID == sourceID {\n\t\t\t\t\t\tcontinue\n\t\t\t\t\t}\n\t\t\t\t\tnewIn = append(newIn, edge)\n\t\t\t\t}\n\t\t\t\ttargetNode.InEdges[relationType] = newIn\n\t\t\t} else {", "silent", ""},
 		mutant{"benign:as-of-filter-as-one-expression", "pkg/core/graph.go", "\tif createdAt <= queryTime {\n\t\tif deletedAt == 0 || deletedAt > queryTime {\n\t\t\treturn true\n\t\t}\n\t}\n\treturn false\n}", "\treturn queryTime >= createdAt && (deletedAt == 0 || queryTime < deletedAt)\n}", "silent", ""},
 		mutant{"benign:addedge-lookup-with-found-flag-only", "pkg/core/graph.go", "\tfor i := range inList {\n\t\tif inList[i].SourceID == sourceID && inList[i].DeletedAt == 0 {\n\t\t\tfoundIn = true\n\t\t\tbreak\n\t\t}\n\t}\n", "\tfor i := range inList {\n\t\tif inList[i].SourceID != sourceID {\n\t\t\tcontinue\n\t\t}\n\t\tif inList[i].DeletedAt == 0 {\n\t\t\tfoundIn = true\n\t\t\tbreak\n\t\t}\n\t}\n", "silent", ""},
@@ -671,11 +670,12 @@ func init() {
 		mutant{"huge-ef-search-sizes-the-scratch-slice", "pkg/core/hnsw/hnsw_index.go", "\tif scratchCap > int(currentCounter) {\n\t\tscratchCap = int(currentCounter)\n\t}\n", "", "GRD-alloc", "Index.searchInternal:make-slice"},
 		mutant{"benign:ef-search-clamped-with-min-max", "pkg/core/hnsw/hnsw_index.go", "\tif scratchCap < 0 {\n\t\tscratchCap = 0\n\t}\n\tif scratchCap > int(currentCounter) {\n\t\tscratchCap = int(currentCounter)\n\t}\n", "\tscratchCap = max(0, min(scratchCap, int(currentCounter)))\n", "silent", ""},
 		mutant{"negative-refine-batch-size-accepted", "pkg/core/hnsw/optimizer.go", "\tif batchSize <= 0 {\n", "\tif batchSize == 0 {\n", "GRD-alloc", "GraphOptimizer.Refine:make-slice"},
-		mutant{"benign:graph-parameters-checked-by-the-engine-only", "pkg/core/hnsw/hnsw_index.go", "\tif m > MaxM || efConstruction > MaxEfConstruction {\n\t\treturn nil, ValidateParams(m, efConstruction)\n\t}\n", "", "silent", ""},
+		// (the variant "graph parameters checked by the engine only" was retired with fix 3fa733f: hnsw.New now validates for
+		// itself, GRD-levelmult says so, and taking the check out of New is no longer behaviour-preserving for m == 1)
 		mutant{"raw-request-path-as-metric-label", "internal/server/middleware.go", "metrics.HttpRequestDuration.WithLabelValues(r.Method, pathLabel)", "metrics.HttpRequestDuration.WithLabelValues(r.Method, r.URL.Path)", "WEB-10", "label-values#1"},
 		mutant{"benign:metric-label-sanitised-with-another-replacement", "internal/server/middleware.go", "pathLabel := strings.ToValidUTF8(r.URL.Path, \"\\uFFFD\")", "pathLabel := strings.ToValidUTF8(strings.TrimSuffix(r.URL.Path, \"/\"), \"?\")", "silent", ""},
 	)
-	m := mutant{"graph-parameters-unbounded-anywhere", "pkg/core/hnsw/hnsw_index.go", "\tif m > MaxM || efConstruction > MaxEfConstruction {\n\t\treturn nil, ValidateParams(m, efConstruction)\n\t}\n", "", "GRD-alloc", "make-slice"}
+	m := mutant{"graph-parameters-unbounded-anywhere", "pkg/core/hnsw/hnsw_index.go", "\tif err := ValidateParams(m, efConstruction); err != nil {\n\t\treturn nil, err\n\t}\n\n\th := &Index{", "\th := &Index{", "GRD-alloc", "make-slice"}
 	moreEdits[m.Name] = []edit{{"pkg/engine/ops.go", "\tif err := hnsw.ValidateParams(m, efC); err != nil {\n\t\treturn err\n\t}\n", ""}, {"internal/server/http_handlers.go", "\tif err := hnsw.ValidateParams(req.M, req.EfConstruction); err != nil {\n\t\ts.writeHTTPError(w, http.StatusBadRequest, err)\n\t\treturn\n\t}\n", ""}}
 	addMutants("C19", m)
 	addMutants("C04",
@@ -968,4 +968,54 @@ func init() {
 		mutant{"benign:snapshot-mode-ended-through-an-engine-helper", "pkg/engine/recovery.go", "§1/2§\t\t\tif _, err := e.AOF.EndSnapshotModeRequeue(); err != nil {\n", "\t\t\tif _, err := e.leaveSnapshotMode(); err != nil {\n", "silent", ""},
 	)
 	moreEdits["benign:snapshot-mode-ended-through-an-engine-helper"] = []edit{{"pkg/engine/recovery.go", "\nfunc (e *Engine) replayAOF() error {", "\nfunc (e *Engine) leaveSnapshotMode() (int, error) { return e.AOF.EndSnapshotModeRequeue() }\n\nfunc (e *Engine) replayAOF() error {"}}
+}
+
+func init() {
+	moreEdits["setmetadata-reads-before-lock"] = []edit{{"pkg/engine/ops.go", "\t// VReinforce).\n\tmeta := e.DB.GetMetadataForNode(indexName, internalID)\n", "\t// VReinforce).\n"}}
+	moreEdits["reinforce-reads-before-lock"] = []edit{{"pkg/engine/ops.go", "\t\t// deadlocks once a writer (create/delete index, close) waits (P1-5).\n\t\tmeta := e.DB.GetMetadataForNode(indexName, internalID)\n", "\t\t// deadlocks once a writer (create/delete index, close) waits (P1-5).\n"}}
+}
+
+// Round 7: one re-opening of each hazard the round-7 rules guard.
+func init() {
+	m := mutant{"shard-hash-becomes-fnv1", "pkg/core/graph.go", "\th := fnv.New32a()\n", "\th := fnv.New32()\n", "GRD-shardhash", "the-function-the-snapshots-were-written-with"}
+	addMutants("C01", m)
+	addMutants("C10", m)
+	m = mutant{"auto-link-rule-json-name-changed", "pkg/core/hnsw/config.go", "\tMetadataField string `json:\"metadata_field\"`\n", "\tMetadataField string `json:\"field\"`\n", "TBL-wire", "json:Engine.replayAOF:[]AutoLinkRule"}
+	addMutants("C01", m)
+	addMutants("C14", m)
+	addMutants("C06",
+		mutant{"snapshot-field-renamed-in-writer-and-reader", "pkg/core/hnsw/hnsw_node.go", "\tDeleted     bool\n", "\tTombstone   bool\n", "TBL-wire", "gob:Node.GobEncode:nodeGob"},
+	)
+	moreEdits["snapshot-field-renamed-in-writer-and-reader"] = []edit{{"pkg/core/hnsw/hnsw_node.go", "\t\tDeleted:     n.Deleted.Load(),\n", "\t\tTombstone:   n.Deleted.Load(),\n"}, {"pkg/core/hnsw/hnsw_node.go", "alias.Deleted", "alias.Tombstone"}}
+	addMutants("C09",
+		mutant{"document-count-narrowed-to-16-bits", "pkg/core/core.go", "\tTotalDocs int\n", "\tTotalDocs int16\n", "TBL-statwidth", "TextIndexStats.TotalDocs"},
+	)
+	m = mutant{"replay-reads-the-clock-once", "pkg/engine/recovery.go", "\t\t\t\t\t\te.DB.RemoveEdge(sourceID, graphID, relType, false, time.Now().UnixNano())\n", "\t\t\t\t\t\te.DB.RemoveEdge(sourceID, graphID, relType, false, replayNow)\n", "CDC-15c", "timestamp-per-record"}
+	addMutants("C12", m)
+	addMutants("C10", m)
+	moreEdits["replay-reads-the-clock-once"] = []edit{{"pkg/engine/recovery.go", "\tvar validOffset int64 = 0\n\tcorrupted := false\n", "\tvar validOffset int64 = 0\n\tcorrupted := false\n\treplayNow := time.Now().UnixNano()\n"}}
+	addMutants("C13",
+		mutant{"vacuum-ranges-over-the-shard-array", "pkg/core/graph.go", "\tfor i := 0; i < NumGraphShards; i++ {\n\t\tshard := &db.graphShards[i]\n\t\tshard.mu.Lock()\n\n\t\tfor nodeID, node := range shard.nodes {\n\t\t\t// Prune OutEdges", "\tfor _, shard := range db.graphShards {\n\t\tshard.mu.Lock()\n\n\t\tfor nodeID, node := range shard.nodes {\n\t\t\t// Prune OutEdges", "LCK-copy", "type:pkg/core.GraphShard"},
+		mutant{"set-properties-pre-merges-with-a-stale-read", "internal/server/http_handlers.go", "\tif err := s.Engine.VSetMetadata(req.IndexName, req.NodeID, req.Properties); err != nil {", "\tstale := make(map[string]any)\n\tfor k, v := range data.Metadata {\n\t\tstale[k] = v\n\t}\n\tfor k, v := range req.Properties {\n\t\tstale[k] = v\n\t}\n\tif err := s.Engine.VSetMetadata(req.IndexName, req.NodeID, stale); err != nil {", "GRD-rmw-callers", "Server.handleGraphSetProperties"},
+	)
+	m = mutant{"drain-gives-up-after-a-while", "pkg/engine/opgate.go", "\t\t<-wait\n", "\t\tselect {\n\t\tcase <-wait:\n\t\tcase <-time.After(30 * time.Second):\n\t\t}\n", "ORD-9", "ends-only-with-the-wake-up"}
+	addMutants("C14", m)
+	addMutants("C02", m)
+	moreEdits["drain-gives-up-after-a-while"] = []edit{{"pkg/engine/opgate.go", "import \"sync\"\n", "import (\n\t\"sync\"\n\t\"time\"\n)\n"}}
+	addMutants("C16",
+		mutant{"transfer-fields-honoured-on-every-post", "internal/server/middleware.go", "\t\t\tif r.URL.Path == \"/transfer/memory\" {\n", "\t\t\tif r.Method == http.MethodPost {\n", "WEB-4", "alternative-field:source_index"},
+	)
+	addMutants("C20",
+		mutant{"token-estimate-truncated-again", "pkg/rag/adaptive_retriever.go", "\t\t\tchunkCost := math.Ceil(float64(len(chunk.Content)) / ar.config.CharsPerToken)\n", "\t\t\tchunkCost := float64(len(chunk.Content)) / ar.config.CharsPerToken\n", "GRD-budget", "estimate-rounded-up"},
+		mutant{"token-estimate-compared-as-an-int-again", "pkg/rag/adaptive_retriever.go", "\t\t\tif float64(totalTokens)+chunkCost > float64(budget) {\n", "\t\t\tif totalTokens+int(chunkCost) > budget {\n", "GRD-budget", "estimate-compared-as-a-float"},
+	)
+	m = mutant{"stability-score-takes-the-raw-access-count", "pkg/engine/epistemic_types.go", "\t\t\tif accessCount < 0 {\n\t\t\t\taccessCount = 0\n\t\t\t}\n", "", "GRD-logarg", "CalculateStability"}
+	addMutants("C15", m)
+	addMutants("C19", m)
+	m = mutant{"int8-query-quantized-with-the-index-range", "pkg/core/hnsw/hnsw_index.go", "\t\tfinalQuery = quantizeQuery(queryF32, h.quantizer)\n", "\t\tfinalQuery = h.quantizer.Quantize(queryF32)\n", "GRD-queryscale", "searchInternal:quantize"}
+	addMutants("C07", m)
+	addMutants("C18", m)
+	addMutants("C07",
+		mutant{"query-range-test-dropped", "pkg/core/hnsw/hnsw_index.go", "\tif !(maxAbs > 0) || math.IsInf(float64(maxAbs), 0) {\n\t\treturn fallback.Quantize(q)\n\t}\n\treturn (&distance.Quantizer{AbsMax: maxAbs}).Quantize(q)\n", "\t_ = maxAbs\n\treturn fallback.Quantize(q)\n", "GRD-queryscale", "at-its-own-scale"},
+	)
 }
